@@ -11,19 +11,20 @@ import (
 
 // Verification hooks (build tag "verif" only).
 
-var verifPauseFn atomic.Value // func(string)
+var verifPauseFn atomic.Value // func(Client, string)
 
-// VerifSetPause installs a callback invoked at named pause points.
-func VerifSetPause(f func(point string)) {
+// VerifSetPause installs a callback invoked at named pause points with the
+// client that reached the point.
+func VerifSetPause(f func(c Client, point string)) {
 	if f == nil {
-		f = func(string) {}
+		f = func(Client, string) {}
 	}
 	verifPauseFn.Store(f)
 }
 
-func verifPause(point string) {
-	if f, ok := verifPauseFn.Load().(func(string)); ok && f != nil {
-		f(point)
+func verifPause(o *ovsdbClient, point string) {
+	if f, ok := verifPauseFn.Load().(func(Client, string)); ok && f != nil {
+		f(o, point)
 	}
 }
 
